@@ -655,10 +655,20 @@ impl<'de> de::Deserializer<'de> for Variable {
                     Err(de::Error::invalid_length(len, &"fewer elements in array"))
                 }
             }
-            Variable::Object(v) => visitor.visit_map(MapDeserializer {
-                iter: v.into_iter(),
-                value: None,
-            }),
+            Variable::Object(v) => {
+                let len = v.len();
+                let mut deserializer = MapDeserializer {
+                    iter: v.into_iter(),
+                    value: None,
+                };
+                let map = visitor.visit_map(&mut deserializer)?;
+                // Like serde_json, refuse objects with more entries than the visitor consumed.
+                if deserializer.iter.len() == 0 {
+                    Ok(map)
+                } else {
+                    Err(de::Error::invalid_length(len, &"fewer elements in map"))
+                }
+            }
             Variable::Expref(v) => visitor.visit_string(format!("<expression: {:?}>", v)),
         }
     }
@@ -946,11 +956,17 @@ impl<'de> de::Deserializer<'de> for MapDeserializer {
     type Error = Error;
 
     #[inline]
-    fn deserialize_any<V>(self, visitor: V) -> Result<V::Value, Error>
+    fn deserialize_any<V>(mut self, visitor: V) -> Result<V::Value, Error>
     where
         V: de::Visitor<'de>,
     {
-        visitor.visit_map(self)
+        let len = self.iter.len();
+        let map = visitor.visit_map(&mut self)?;
+        if self.iter.len() == 0 {
+            Ok(map)
+        } else {
+            Err(de::Error::invalid_length(len, &"fewer elements in map"))
+        }
     }
 
     forward_to_deserialize_any! {
